@@ -69,13 +69,15 @@ type rlCase struct {
 
 type rlObs struct {
 	rlCase
-	Inh    []pair `json:"inh"`
-	Got    []pair `json:"got"`
-	Status int    `json:"status"`
-	Exit   int    `json:"exit"`
-	ErrLen int    `json:"errlen"`
-	Err    string `json:"err"`
-	Setup  string `json:"setup"`
+	Inh       []pair `json:"inh"`
+	Got       []pair `json:"got"`
+	Ign       []int  `json:"ign"`       // signals the program found ignored on entry
+	CallerIgn []int  `json:"callerign"` // signals the driver itself ignores (inherited legitimately)
+	Status    int    `json:"status"`
+	Exit      int    `json:"exit"`
+	ErrLen    int    `json:"errlen"`
+	Err       string `json:"err"`
+	Setup     string `json:"setup"`
 }
 
 var huge = runner.Limit{TimeLimit: 1 << 40, MemoryLimit: 1 << 40}
@@ -122,7 +124,13 @@ func inherited(run string) ([16][2]uint64, error) {
 }
 
 func runRl(e *limrun.Env, c rlCase) rlObs {
-	o := rlObs{rlCase: c, Inh: []pair{}, Got: []pair{}}
+	o := rlObs{rlCase: c, Inh: []pair{}, Got: []pair{}, Ign: []int{}, CallerIgn: []int{}}
+	if ci, err := limrun.CallerIgnored(); err != nil {
+		o.Setup = "caller dispositions: " + err.Error()
+		return o
+	} else {
+		o.CallerIgn = ci
+	}
 	rec := rlimit.RLimits{
 		CPU: c.Rec.CPU.u64(), CPUHard: c.Rec.CPUHard.u64(), Data: c.Rec.Data.u64(),
 		FileSize: c.Rec.FSize.u64(), Stack: c.Rec.Stack.u64(), AddressSpace: c.Rec.AS.u64(),
@@ -147,6 +155,9 @@ func runRl(e *limrun.Env, c rlCase) rlObs {
 	var got [16][2]uint64
 	n := 0
 	for _, l := range out.Report {
+		if l.T == "ign" {
+			o.Ign = append(o.Ign, int(l.V))
+		}
 		if l.T == "rl" && len(l.Rest) == 3 {
 			r, e1 := strconv.Atoi(l.Rest[0])
 			cur, e2 := strconv.ParseUint(l.Rest[1], 10, 64)
@@ -181,22 +192,29 @@ type vCase struct {
 
 type vObs struct {
 	vCase
-	Status  int           `json:"status"`
-	Exit    int           `json:"exit"`
-	ErrLen  int           `json:"errlen"`
-	Err     string        `json:"err"`
-	TimeUs  int           `json:"time_us"`
-	MemKib  int           `json:"mem_kib"`
-	Report  []limrun.Line `json:"report"`
-	Setup   string        `json:"setup"`
-	WallMs  int           `json:"wall_ms"`
-	Limited bool          `json:"limited"`   // the runner takes a runner.Limit (ptrace, unshare)
-	Cancel  bool          `json:"cancelled"` // the driver cancelled the run when the program reported "ready"
+	Status    int           `json:"status"`
+	Exit      int           `json:"exit"`
+	ErrLen    int           `json:"errlen"`
+	Err       string        `json:"err"`
+	TimeUs    int           `json:"time_us"`
+	MemKib    int           `json:"mem_kib"`
+	Report    []limrun.Line `json:"report"`
+	Setup     string        `json:"setup"`
+	WallMs    int           `json:"wall_ms"`
+	Limited   bool          `json:"limited"`   // the runner takes a runner.Limit (ptrace, unshare)
+	Cancel    bool          `json:"cancelled"` // the driver cancelled the run when the program reported "ready"
+	CallerIgn []int         `json:"callerign"` // signals the driver itself ignores
 }
 
 func runV(e *limrun.Env, c vCase) []vObs {
 	mk := func(c vCase) vObs {
-		o := vObs{vCase: c, Report: []limrun.Line{}, Limited: c.Runner == "ptrace" || c.Runner == "unshare"}
+		o := vObs{vCase: c, Report: []limrun.Line{}, Limited: c.Runner == "ptrace" || c.Runner == "unshare", CallerIgn: []int{}}
+		if ci, err := limrun.CallerIgnored(); err != nil {
+			o.Setup = "caller dispositions: " + err.Error()
+			return o
+		} else {
+			o.CallerIgn = ci
+		}
 		rec := rlimit.RLimits{CPU: uint64(c.CPU), CPUHard: uint64(c.CPUHard), FileSize: uint64(c.FSize)}
 		var args []string
 		switch c.Prog {
